@@ -129,13 +129,14 @@ func c20(c *Ctx) {
 		sec := flow.Root(underIface(cfgx.CallArgs(get[0])[2]))
 		var nonEmpty []cfgx.Edge
 		var nonEmptyByCmp [][]cfgx.Edge
+		var cmpBlocks []ssa.Instruction
 		for _, lc := range cfgx.LenCmps(fn) {
 			if !flow.Default.Any(lc.Of, func(v ssa.Value) bool {
 				lk, ok := v.(*ssa.Lookup)
 				if !ok {
 					return false
 				}
-				_, p, okp := flow.AccessPath(lk.X)
+				_, p, okp := flow.AccessPathC(lk.X)
 				return okp && p == "Data" && flow.Root(lk.X) == sec
 			}) {
 				continue
@@ -150,20 +151,38 @@ func c20(c *Ctx) {
 			}
 			nonEmpty = append(nonEmpty, ne...)
 			nonEmptyByCmp = append(nonEmptyByCmp, ne)
+			cmpBlocks = append(cmpBlocks, lc.Bin)
 		}
 		if len(nonEmptyByCmp) < 2 {
 			c.R.Unknown(load.FuncName(fn)+": material tests", c.pos(fn.Pos()), "expected emptiness tests of the fetched secret's data keys")
 			continue
 		}
 		targets := append([]ssa.CallInstruction{gs[0]}, ws...)
+		// "the secret exists and holds material": paths on which the Get is known
+		// to have failed (NotFound: nothing was read) are not in question
+		getFailed := cfgx.ErrEvents(get[0]).Fail
 		if it.ca {
 			// complete = every tested key non-empty: the edge of the last test in the chain
+			// the last test of the chain is the one after which no other key is tested
 			last := nonEmptyByCmp[len(nonEmptyByCmp)-1]
+			for i, ne := range nonEmptyByCmp {
+				final := true
+				for j, other := range cmpBlocks {
+					if i != j {
+						if r, _ := cfgx.ReachableFromEdges(ne, other, nil, nil); r {
+							final = false
+						}
+					}
+				}
+				if final {
+					last = ne
+				}
+			}
 			for _, tg := range targets {
-				r, w := cfgx.ReachableFromEdges(last, tg, nil, c.posf())
+				r, w := cfgx.ReachableFromEdges(last, tg, getFailed, c.posf())
 				c.R.Check(!r, site(tg)+" not-when-complete", c.pos(tg.Pos()), "unreachable when the CA secret already holds key and certificate", "a complete CA secret is regenerated/overwritten", w...)
 			}
-			rets := cfgx.ReturnsReachable(last, nil)
+			rets := cfgx.ReturnsReachable(last, getFailed)
 			good := len(rets) == 1
 			if good {
 				good = flow.IsCallTo(unTuple(cfgx.ReturnValue(rets[0], 0)), xp+pkgInit+".parseCertificateSigner") && flow.Default.Any(cfgx.ReturnValue(rets[0], 0), func(v ssa.Value) bool {
@@ -176,7 +195,7 @@ func c20(c *Ctx) {
 			c.R.Check(len(nonEmptyByCmp) == 2, load.FuncName(fn)+": both keys required", c.pos(fn.Pos()), "completeness requires both tls.key and tls.crt", "completeness is not decided on both TLS keys")
 		} else {
 			for _, tg := range targets {
-				r, w := cfgx.ReachableFromEdges(nonEmpty, tg, nil, c.posf())
+				r, w := cfgx.ReachableFromEdges(nonEmpty, tg, getFailed, c.posf())
 				c.R.Check(!r, site(tg)+" not-when-material", c.pos(tg.Pos()), "unreachable when the secret already holds any certificate material", "an existing certificate secret is regenerated/overwritten", w...)
 			}
 			c.R.Check(len(nonEmptyByCmp) == 3, load.FuncName(fn)+": all three keys tested", c.pos(fn.Pos()), "tls.crt, tls.key and ca.crt are all consulted", "not all three certificate keys are consulted before regenerating")
@@ -276,12 +295,12 @@ func c20(c *Ctx) {
 			for _, in := range b.Instrs {
 				if mu, ok := in.(*ssa.MapUpdate); ok {
 					if k, isC := cfgx.ConstString(mu.Key); isC && k == "ca.crt" {
-						r, p, okp := flow.AccessPath(mu.Value)
+						r, p, okp := flow.AccessPathC(mu.Value)
 						okCA = okp && p == "certificatePEM" && r == signer
 					}
 				}
 				if st, ok := in.(*ssa.Store); ok && isFieldSel(st.Addr, "x509.Certificate", "DNSNames") {
-					_, p, okp := flow.AccessPath(st.Val)
+					_, p, okp := flow.AccessPathC(st.Val)
 					okDNS = okp && p == it.dns
 				}
 			}
@@ -295,9 +314,9 @@ func c20(c *Ctx) {
 			for _, x := range calls(f, xp+pkgInit+".TLSCertificateGeneratorWithServerSecretName") {
 				a := x.Common().Args
 				if ci, ok := a[1].(*ssa.Call); ok && cfgx.CalleeName(ci) == xp+pkgInit+".DNSNamesForService" {
-					_, p0, _ := flow.AccessPath(ci.Call.Args[0])
-					_, p1, _ := flow.AccessPath(ci.Call.Args[1])
-					_, ps, _ := flow.AccessPath(a[0])
+					_, p0, _ := flow.AccessPathC(ci.Call.Args[0])
+					_, p1, _ := flow.AccessPathC(ci.Call.Args[1])
+					_, ps, _ := flow.AccessPathC(a[0])
 					if p0 == "WebhookServiceName" && p1 == "WebhookServiceNamespace" && ps == "TLSServerSecretName" {
 						found = true
 						c.R.Analysed(load.FuncName(f))
@@ -336,7 +355,7 @@ func c20(c *Ctx) {
 		for _, b := range lo.Blocks {
 			for _, in := range b.Instrs {
 				if st, ok := in.(*ssa.Store); ok && len(ap) == 1 {
-					if r, p, okp := flow.AccessPath(st.Addr); okp && p != "" && r == flow.Root(underIface(cfgx.CallArgs(ap[0])[1])) {
+					if r, p, okp := flow.AccessPathC(st.Addr); okp && p != "" && r == flow.Root(underIface(cfgx.CallArgs(ap[0])[1])) {
 						nStores++
 						if !strings.HasSuffix(p, "Name") {
 							good = false
@@ -371,7 +390,7 @@ func c20(c *Ctx) {
 				if !ok {
 					continue
 				}
-				if _, p, okp := flow.AccessPath(st.Addr); !okp || !strings.HasSuffix(p, "CABundle") {
+				if _, p, okp := flow.AccessPathC(st.Addr); !okp || !strings.HasSuffix(p, "CABundle") {
 					continue
 				}
 				n++
@@ -405,7 +424,7 @@ func c20(c *Ctx) {
 					if !ok {
 						continue
 					}
-					if _, p, okp := flow.AccessPath(st.Addr); !okp || !strings.HasSuffix(p, "CABundle") {
+					if _, p, okp := flow.AccessPathC(st.Addr); !okp || !strings.HasSuffix(p, "CABundle") {
 						continue
 					}
 					l := cfgx.LoopOf(st.Block())
@@ -477,7 +496,7 @@ func c20(c *Ctx) {
 			for _, b := range fn.Blocks {
 				for _, in := range b.Instrs {
 					if st, ok := in.(*ssa.Store); ok {
-						if _, p, okp := flow.AccessPath(st.Addr); okp && strings.HasSuffix(p, "CABundle") {
+						if _, p, okp := flow.AccessPathC(st.Addr); okp && strings.HasSuffix(p, "CABundle") {
 							through[b] = true
 						}
 					}
@@ -500,15 +519,20 @@ func describeKey(v ssa.Value) string {
 // the index is the map filled in the loop over the list of T.
 func sameKindIndex(fn *ssa.Function, pack, idx ssa.Value) bool {
 	pt := strings.TrimPrefix(fullType(pack), "*")
+	idx = sole(idx)
 	for _, b := range fn.Blocks {
 		for _, in := range b.Instrs {
-			if mu, ok := in.(*ssa.MapUpdate); ok && mu.Map == idx {
+			if mu, ok := in.(*ssa.MapUpdate); ok && sole(mu.Map) == idx {
 				// value = x.GetName() where x is element of a list of the same kind
 				for _, ci := range flow.Strict.CallsIn(mu.Value) {
 					if r := cfgx.Receiver(ci); r != nil {
-						rt := strings.TrimPrefix(flow.Root(underIface(r)).Type().String(), "*")
-						if rt == pt {
-							return true
+						rv, _, _ := flow.AccessPathC(underIface(r))
+						for _, cand := range []ssa.Value{flow.Root(underIface(r)), rv} {
+							rt := strings.TrimPrefix(cand.Type().String(), "*")
+							// the element itself, or the list it is taken from
+							if rt == pt || rt == pt+"List" {
+								return true
+							}
 						}
 					}
 				}
